@@ -3409,7 +3409,8 @@ impl LineBuf {
 					let Some(edit) = edit_provider.pop() else { return Ok(()) };
 					let Edit { pos, cursor_pos, old, old_diff, new, new_diff, merging: _, .. } = edit;
 
-					self.buffer.replace_range(pos..pos + new.len(), &old);
+					// `old` and `new` hold the whole text before and after the edit, not just the part that differs
+					self.buffer.replace_range(.., &old);
 					let new_cursor_pos = self.cursor.get();
 					let in_insert_mode = !self.cursor.exclusive;
 
